@@ -7,6 +7,11 @@ V = Path(__file__).resolve().parent.parent
 TECH = "TLA+ specification model-checked with TLC, bound to the implementation by trace validation (TLC checks recorded implementation traces against the abstract spec) and replay of TLC-generated cases/behaviours"
 
 CLAIMS = {
+    "C20": {
+        "text": "TLC runs the Gregorian calendar as an odometer (one state per day, advanced by the leap rule; one state per second of the day) and proves on every swept day that an independent closed form (Civil) equals it, plus the 400-year periodicity that extends it to every cycle - quick: one full 400-year cycle (146097 days) + 86400 seconds; thorough: 0001-01-01..9999-12-31. The real formatter (SystemTime::format_time, through the clock hook) is run on every day of the sweep, on every second in windows around year / leap-day / century / 400-year boundaries and the epoch, on pre-1970 instants with sub-second parts and on random and extreme instants over the whole i64 range; TLC validates every printed timestamp against Civil/Clock, truncation of micros, and monotonicity.",
+        "note": "Trusted: the harness's i128 Euclidean split of an instant into (400-year cycle, day in cycle, second of day), needed because TLC integers are 32-bit; the strict parser of the printed text. Finding F13 (smallest SystemTime panics in debug builds) was found by this check and fixed (2a99690).",
+        "ref": "4 (C20)",
+    },
     "C01": {
         "text": "TLC explores every history (bounded: 2 threads, 2 collectors, 4 callsites, 14-24 filter records, 6-7 API calls) of the mechanism model (registrar list with dead entries, per-callsite cached interest incl. unregistered, MAX_LEVEL, thread-local slot, SCOPED_COUNT, global) and checks in every state, for every (thread, callsite), that the macro guard chain would deliver exactly what the current collector's own filter demands. Binding: TLC -simulate behaviours and seeded 150-step random histories (10 collectors, 4 threads, 45 real macro callsites) are executed against the real crates, one OS process each, and every recorded trace is validated by TLC against the abstract spec (who must receive each emission), with all model invariants evaluated at every step.",
         "note": "Assumes collectors whose filter is a self-consistent record as the property requires. Sequential consistency at API-call granularity (the statement-level races are C04). Trusted: recording collector, worker-thread executor, trace projection.",
